@@ -19,6 +19,20 @@ THEOREMS = [
     "Nix.C03.lookup_by_id",
     "Nix.C03.membership_iff_lookup",
     "Nix.C03.duplicate_refused_block",
+    "Nix.C03.duplicate_refused_section_root",
+    "Nix.C03.duplicate_refused_section",
+    "Nix.C03.duplicate_refused_in",
+    "Nix.C03.duplicate_refused_property",
+    "Nix.C03.reachable_wf",
+    "Nix.C03.step_wf",
+    "Nix.C03.views_agree_reachable",
+    "Nix.C03.names_unique_reachable",
+    "Nix.C03.ids_unique_reachable",
+    "Nix.C03.id_fresh",
+    "Nix.C03.order_after_delete",
+    "Nix.C03.link_append_last",
+    "Nix.C03.link_unlink_keeps_rest",
+    "Nix.C03.demo_reachable",
 ]
 ASSUMPTIONS = [
     "HDF5 groups with creation-order tracking enumerate links in creation order, also after deletions and reopen "
